@@ -42,7 +42,7 @@ GENERIC = ['params', 'params_no_bias', 'ops', 'ops_no_bias']
 
 def cases(tier, seed):
     cs = []
-    n = 420 if tier == 'quick' else 6000
+    n = 420 if tier == 'quick' else 12000
     modes = ['binary', 'mixed', 'adversarial', 'binary', 'normal', 'allpruned', 'open']
     specs = ['dict', 'params', 'ops', 'dict', 'params_no_bias', 'ops_no_bias', 'gap8', 'dict']
     for i in range(n):
@@ -54,7 +54,7 @@ def cases(tier, seed):
                    'mask_mode': modes[i % len(modes)], 'fold': (i // 3) % 3 == 0,
                    'time_style': 'real' if i % 5 == 0 else 'binary', 'spec': spec,
                    'full_cost': (i // 4) % 2 == 1, 'seed': seed * 104729 + 77 + i})
-    nr = 60 if tier == 'quick' else 600
+    nr = 60 if tier == 'quick' else 1500
     for i in range(nr):
         cs.append({'kind': 'reuse', 'prog_seed': seed * 31 + i, 'family': '1d' if i % 2 else '2d',
                    'same': i % 4 < 2, 'mask_mode': modes[i % 3], 'spec': 'dict',
